@@ -85,10 +85,10 @@ Qed.
 (* result of an entry: the state is a protocol state at a line feed (or the
    end of the buffer for Eof) *)
 Definition entry_good (x : scanned * zstate * sbuf) : Prop :=
-  let '(_, _, s') := x in PInv s' /\ is_token (scat s') = false.
+  let '(sc, _, s') := x in PInv s' /\ is_token (scat s') = false /\ (sc = SEof \/ scat s' = CLF).
 
-Lemma lf_not_token s : require_line_feed s = Ok tt -> is_token (scat s) = false.
-Proof. unfold require_line_feed, is_line_feed. destruct (scat s); try discriminate; reflexivity. Qed.
+Lemma lf_not_token s : require_line_feed s = Ok tt -> is_token (scat s) = false /\ scat s = CLF.
+Proof. unfold require_line_feed, is_line_feed. destruct (scat s); try discriminate; split; reflexivity. Qed.
 
 Lemma scan_owner_record_good zs s owner new_owner : PInv s ->
   good entry_good (scan_owner_record zs s owner new_owner).
@@ -104,7 +104,7 @@ Proof.
   intros [d s2] _ HP2. cbn [fst snd] in *.
   destruct (require_line_feed s2) as [[]| | |] eqn:El; cbn [bind good]; auto;
     try (unfold require_line_feed in El; destruct (is_line_feed s2); discriminate El).
-  split; [exact HP2|apply lf_not_token; exact El].
+  destruct (lf_not_token _ El) as [L1 L2]. split; [exact HP2|]. split; [exact L1|right; exact L2].
 Qed.
 
 Lemma scan_control_good zs s : string_drops_quote = true -> PInv s -> good entry_good (scan_control zs s).
@@ -116,13 +116,13 @@ Proof.
      good entry_good (do _ <- require_line_feed s2; Ok (x, zs, s2))).
   { intros x s2 HP2. destruct (require_line_feed s2) as [[]| | |] eqn:El; cbn [bind good]; auto;
       try (unfold require_line_feed in El; destruct (is_line_feed s2); discriminate El).
-    split; [exact HP2|apply lf_not_token; exact El]. }
+    destruct (lf_not_token _ El) as [L1 L2]. split; [exact HP2|]. split; [exact L1|right; exact L2]. }
   destruct (eq_ci ctrl [36; 79; 82; 73; 71; 73; 78]).
   { eapply good_bind; [apply scan_name_good; exact HP1|]. intros [n s2] _ HP2. cbn [fst snd] in *. apply LF; exact HP2. }
   destruct (eq_ci ctrl [36; 73; 78; 67; 76; 85; 68; 69]).
   { eapply good_bind; [apply scan_string_good; assumption|]. intros [path s2] _ HP2. cbn [snd] in HP2.
     destruct (is_line_feed s2) eqn:El; cbn [negb].
-    - cbn. split; [exact HP2|]. unfold is_line_feed in El. destruct (scat s2); try discriminate El; reflexivity.
+    - cbn. split; [exact HP2|]. unfold is_line_feed in El. destruct (scat s2); try discriminate El; split; [reflexivity|right; reflexivity].
     - eapply good_bind; [apply scan_name_good; exact HP2|]. intros [n s3] _ HP3. cbn [fst snd] in *. apply LF; exact HP3. }
   destruct (eq_ci ctrl [36; 84; 84; 76]); [|exact I].
   unfold scan_uint_entry. rewrite Ei.
@@ -138,7 +138,7 @@ Proof.
   intros s1 _ (HI1 & Hw1 & Hf1 & _).
   assert (HP1 : PInv s1) by (split; [exact HI1|]; split; [lia|exact Hf1]).
   destruct (scat s1) eqn:Ec.
-  - cbn. split; [exact HP1|]. rewrite Ec. reflexivity.
+  - cbn. split; [exact HP1|]. rewrite Ec. split; [reflexivity|left; reflexivity].
   - destruct (hsp s1).
     + destruct (last_owner zs); [apply scan_owner_record_good; exact HP1|exact I].
     + assert (Other : good entry_good
@@ -169,7 +169,7 @@ Proof.
       destruct (N.eqb_spec c 36) as [->|Hne]; [apply scan_control_good; assumption|].
       destruct c as [|p]; [exact Other|].
       repeat (destruct p as [p|p|]; try exact Other). congruence.
-  - cbn. split; [exact HP1|]. rewrite Ec. reflexivity.
+  - cbn. split; [exact HP1|]. rewrite Ec. split; [reflexivity|right; reflexivity].
 Qed.
 
 (* Zonefile::next_entry until the end or the first error: no panic, and no
@@ -181,7 +181,7 @@ Proof.
   intros Hflag. induction fuel as [|f IH]; intros zs s acc HP Hc; [exact I|].
   cbn [read_loop]. pose proof (scan_entry_good zs s Hflag HP Hc) as G.
   destruct (scan_entry zs s) as [[[x zs1] s1]| | |]; cbn [good entry_good] in G; try contradiction; try exact I.
-  destruct G as (HP1 & Hc1). destruct x; try exact I; apply IH; assumption.
+  destruct G as (HP1 & Hc1 & _). destruct x; try exact I; apply IH; assumption.
 Qed.
 
 Lemma inner_fuel_suffices : string_drops_quote = true ->
@@ -210,3 +210,11 @@ Qed.
 Example reader_no_panic_ex :
   read_file [97;46;32;49;32;73;78;32;84;88;84;32;34;102;111;111;34] = ([], EErr 12).
 Proof. vm_compute. reflexivity. Qed.
+
+(* the scan_string correction is in the source (84ed293): these hold only while
+   T1 finds it *)
+Lemma string_quote_dropped : string_drops_quote = true.
+Proof. vm_compute. reflexivity. Qed.
+
+Theorem reader_no_panic_all file : match snd (read_file file) with EPanic _ => False | _ => True end.
+Proof. apply reader_no_panic. apply string_quote_dropped. Qed.
